@@ -255,3 +255,13 @@ Theorem C04_siblings_history_manual_exclusions :
   forall n cols ops, sib_inv (fst (sib_run (sib_init n cols) ops)).
 Proof. exact sib_history_inv. Qed.
 Print Assumptions C04_siblings_history_manual_exclusions.
+
+(* A read with an explicit dtype (np.asarray(child[feat], dtype=...), op
+   (3,2,level,feature,d) with d > 0) leaves exactly the state of a plain
+   read: the cache keeps the uncast array, so what later reads return does
+   not depend on it. *)
+Theorem C04_cast_read_same_state :
+  forall st b c d,
+    fst (step st (3, 2, b, c, d)) = fst (step st (3, 2, b, c, 0)).
+Proof. exact cast_read_same_state. Qed.
+Print Assumptions C04_cast_read_same_state.
